@@ -17,12 +17,18 @@ What |n means (docs "Multiplication Operator", docstring of read_cgsmiles, tests
   * `[#A]s(...)x|n y`   n copies of anchor + branch; copy i+1's anchor is bonded to copy i's anchor with the
                         symbol x written between ')' and '|' (default order 1, test 22 `)$|3`), the symbol s before
                         '(' bonds anchor and branch in every copy (test 21), y after |n bonds the last anchor
-                        to what follows (tests 21b, 22), the anchor's own incoming symbol belongs to the first copy.
+                        to what follows (tests 21b, 22), the anchor's own incoming symbol belongs to the first copy;
+  * `[#A]|m(...)x|n`    both rules, one after the other: the docs define `[#A]|m` as "equivalent to writing" m nodes A
+                        (so the string is `[#A]...[#A](...)x|n` with the branch on the last A, as for any branch after
+                        |m), and "the entire branch including the anchoring node is repeated": the anchoring NODE is
+                        that last A.  Expected: m-1 nodes A, then n copies of A+branch (`{[#X][#A]|2([#B])|2[#E]}` is
+                        X A A(B) A(B) E, 7 nodes).  Generated only with a flat branch (no branch and no |n inside).
 
 Scope decisions (combinations the documentation leaves open are not generated):
   * an anchor with two or more branches followed by |n (which unit is repeated?);
   * a multiplied branch followed by a further branch on the same anchor;
-  * an anchor that itself carries |n and whose branch carries |n;
+  * an anchor that itself carries |n and whose branch carries |n when that branch contains a branch or a multiplier
+    (the flat case is generated as a family of its own, see above);
   * ring markers on a multiplied node (no documented position next to |n);
   * ring markers inside a multiplied unit that are not opened AND closed inside that unit; rings that stay inside
     one unit are generated as a separate small family (each copy then has its own ring in the longhand) and
@@ -47,6 +53,7 @@ Failure classes (signatures):
         KeyError / IndexError; only when no multiplied branch contains a branch
   read_cgsmiles/branch-multiplier-one/UnboundLocalError           candidate finding: `(...)|1`
   read_cgsmiles/ring-inside-multiplied-branch                     candidate finding: the copies lose the ring bond
+  read_cgsmiles/multiplied-anchor-of-multiplied-branch/<kind>     `[#A]|m(...)|n` (no finding on the trees seen so far)
   read_cgsmiles/<features>/<kind>                                 everything else
 """
 import logging
@@ -70,6 +77,7 @@ BOUNDS = {
               'symbol_positions': 'incoming symbol of every node (incl. after |n), between ) and |n',
               'one_ring_bond_outside_units': True, 'annotated_max_node_tokens': 4,
               'branch_count_one_max_tokens': 4, 'ring_inside_unit_max_tokens': 4,
+              'multiplied_anchor_of_multiplied_flat_branch': '<= 4 node tokens, counts 2,3 x 2,3, <= 1 symbol, one annotation',
               'random_cases': 3000, 'random_node_tokens': '4..14', 'random_counts': '1..12', 'random_multipliers': '1..3'},
     'thorough': {'exhaustive_max_node_tokens': '4 with <=2 multipliers and <=2 symbols; 5 with (1 multiplier, <=2 symbols) and '
                                                '(2 multipliers, <=1 symbol); 6 with 1 multiplier and <=1 symbol',
@@ -77,6 +85,7 @@ BOUNDS = {
                  'symbol_positions': 'incoming symbol of every node (incl. after |n), between ) and |n',
                  'one_ring_bond_outside_units': True, 'annotated_max_node_tokens': 6,
                  'branch_count_one_max_tokens': 5, 'ring_inside_unit_max_tokens': 6,
+                 'multiplied_anchor_of_multiplied_flat_branch': '<= 5 node tokens with <= 1 symbol, <= 4 with <= 2 symbols; counts 2,3 x 2,3',
                  'random_cases': 100000, 'random_node_tokens': '4..14', 'random_counts': '1..12', 'random_multipliers': '1..3'},
 }
 EXHAUSTIVE = {'quick': False, 'thorough': False}
@@ -84,7 +93,7 @@ RULE = ('ASTs of the documented grammar with multipliers (gen/g1_grammar.py): ev
         'choice of 1..2 multiplier sites (any node incl. the first, any branch that is the only branch of its anchor, nested '
         'ones included) x counts 2,3 x every assignment of bond symbols to the positions with at most the stated number of '
         'symbols, plus one ring bond outside the multiplied units; annotations on every node of a multiplied unit; |1 on '
-        'branches; a ring inside a multiplied unit; then seeded random ASTs (4..14 tokens, 1..3 multipliers, counts up to 12, '
+        'branches; a ring inside a multiplied unit; a multiplied node that anchors a multiplied flat branch; then seeded random ASTs (4..14 tokens, 1..3 multipliers, counts up to 12, '
         'symbols, annotations, rings).  The exhaustive part does not depend on the seed.  A case is non-trivial when some '
         'multiplier has n >= 2 and the string also has a branch, a ring marker, a bond symbol or an annotation; '
         'distinct = distinct rendered text.')
@@ -115,6 +124,7 @@ def cases(tier, seed):
         if RING_IN_UNIT_FAMILY:
             yield from g1.c05_ring_in_unit_recipes(4)
         yield from g1.c05_annotated_recipes(4, branch_in_unit=True)
+        yield from g1.c05_multiplied_anchor_recipes(4)
         yield from g1.c05_recipes(5, max_mults=1, max_nondefault=0, min_tokens=5, with_ring=False)
         yield from g1.c05_recipes(4, max_mults=1, max_nondefault=2, min_tokens=4)
         yield from g1.c05_recipes(4, max_mults=2, max_nondefault=1, min_tokens=4, min_mults=2)
@@ -130,6 +140,8 @@ def cases(tier, seed):
         if RING_IN_UNIT_FAMILY:
             yield from g1.c05_ring_in_unit_recipes(6)
         yield from g1.c05_annotated_recipes(6, branch_in_unit=True)
+        yield from g1.c05_multiplied_anchor_recipes(5)
+        yield from g1.c05_multiplied_anchor_recipes(4, max_nondefault=2)
         yield from g1.c05_random(seed, 20000, branch_in_unit=False)
         yield from g1.c05_recipes(5, max_mults=1, max_nondefault=2, min_tokens=5)
         yield from g1.c05_recipes(5, max_mults=2, max_nondefault=1, min_tokens=5, min_mults=2)
@@ -197,6 +209,8 @@ def classify(ast, text, feats, kind, message=''):
         return 'read_cgsmiles/multiplied-branch-after-closed-branch-inside-branch'
     if wrong_or_lookup and g1.outer_multiplied_branch_contains_branch(ast):
         return 'read_cgsmiles/multiplied-branch-containing-branch'
+    if g1.multiplied_anchor_of_multiplied_branch(ast):
+        return 'read_cgsmiles/multiplied-anchor-of-multiplied-branch/%s' % kind
     if g1.consecutive_closures_then_token(text):
         # F7: the node after the closures is attached to the wrong anchor; with a ring bond on that node the
         # misplaced edge can coincide with the ring bond, which the reader reports as a duplicate edge
@@ -210,7 +224,7 @@ def check_case(case):
     import cgsmiles
     ast = g1.build(case)
     text = g1.render(ast)
-    if not g1.has_multiplier(ast) or g1.scope_violation(ast, allow_ring_in_unit=True) is not None:
+    if not g1.has_multiplier(ast) or g1.scope_violation(ast, allow_ring_in_unit=True, allow_mult_anchor=True) is not None:
         return Outcome(text, False, [], skipped=True, note='outside the C05 scope')
     feats = g1.features(ast)
     flat = g1.flat_nodes(ast)
